@@ -150,6 +150,7 @@ func (c *fnCtx) function() {
 		fieldNames, fieldTypes = structFields(ts.Type.(*ast.StructType))
 	}
 	c.typeParams(fd.Type.TypeParams)
+	c.localTypes(fd.Body)
 	c.g.desugarLabels(fd)
 	c.body = fd.Body
 	if rest, ok := c.mutexPrologue(fd, fieldTypes); ok {
@@ -575,6 +576,10 @@ func (c *fnCtx) zeroOf(t *fnType, at ast.Node) string {
 		}
 	case "elem":
 		return c.zeroVar(t.name).name
+	case "ptr":
+		return "(@None " + parenT(t.elem.coq()) + ")"
+	case "view":
+		return "(mkView 0 0 0)" // the nil slice
 	case "struct":
 		s := "mk_" + t.name
 		for _, ft := range structFieldTypes(t) {
@@ -718,6 +723,9 @@ func (c *fnCtx) sliceUsage(fd *ast.FuncDecl) map[string]*sliceUse {
 			}
 		case *ast.CompositeLit:
 			for _, e := range v.Elts {
+				if kv, ok := e.(*ast.KeyValueExpr); ok && (c.fn.ctor == nil || c.fn.ctor.lit != v) {
+					e = kv.Value // Edit[T]{X: lhs[lpos:lend]}; (the literal of a constructor hands its slices over)
+				}
 				if p := paramOf(e); p != "" {
 					use[p].view = true
 				}
@@ -985,6 +993,9 @@ func (c *fnCtx) emit(body term) {
 	fn.fuel = c.fuel
 	doc := strings.ReplaceAll(strings.ReplaceAll(src(&ast.FuncDecl{Recv: fn.decl.Recv, Name: fn.decl.Name, Type: fn.decl.Type}), "(*", "( *"), "*)", "* )")
 	b.WriteString("(* " + doc + " *)\n")
+	if vd := c.viewBaseDoc(); vd != "" {
+		b.WriteString("(* slice fields: " + vd + " *)\n")
+	}
 	if fn.pure {
 		b.WriteString("Definition " + fn.name + tp + binders(sig) + " : " + c.retType() + " :=\n  " + render(body, 1, true) + ".\n")
 	} else {
@@ -1367,6 +1378,9 @@ func (c *fnCtx) expr(e ast.Expr, pre *[]fnBind) (string, *fnType) {
 		}
 		c.lostAt(v, "dereference %s", src(v))
 	case *ast.UnaryExpr:
+		if v.Op == token.AND {
+			return c.addrOf(v, pre)
+		}
 		x, t := c.expr(v.X, pre)
 		switch v.Op {
 		case token.SUB:
@@ -1648,6 +1662,10 @@ func (c *fnCtx) binary(v *ast.BinaryExpr, pre *[]fnBind) (string, *fnType) {
 			s = "(Bool.eqb " + x + " " + y + ")"
 		case xt.k == "string" && yt.k == "string":
 			s = "(str_eqb " + x + " " + y + ")"
+		case xt.k == "ptr" && yt.k == "nil":
+			s = "(match " + x + " with None => true | Some _ => false end)"
+		case yt.k == "ptr" && xt.k == "nil":
+			s = "(match " + y + " with None => true | Some _ => false end)"
 		case xt.k == "elem" && yt.k == "elem" && xt.name == yt.name:
 			// == on a comparable type parameter: the function argument eqb_<T>
 			s = "(" + c.mapEqbVar(&fnType{k: "map", key: xt}).name + " " + x + " " + y + ")"
